@@ -349,3 +349,39 @@ Example C10_equal_fold_guard_satisfiable :
   evalS (env_of [("x", VStr "Go"); ("y", VStr "gO")] []) (rw_lhs (rw_equal_fold_both (EIdent "x" TString) (EIdent "y" TString))) []
     = Some (RVal (VBool true), []).
 Proof. vm_compute. reflexivity. Qed.
+
+(* ---------------- round 6: pointers to arrays and maps are values of the model ---------------- *)
+(* unslice's filter (string or slice type) is necessary: on a pointer to an array `p[:]` => `p` changes the value
+   (slice vs pointer), and for a nil pointer a panic becomes a value.  C10_unslice_preserves above is the positive side. *)
+Theorem C10_unslice_pointer_to_array_refuted :
+  exists en s, env_ok en /\ typeof s = Some TPArr /\ typeof (rw_lhs (rw_unslice s)) = Some TInts /\
+    eval en (rw_lhs (rw_unslice s)) = Some (RVal (VInts [1; 2; 3]%Z), []) /\
+    eval en (rw_rhs (rw_unslice s)) = Some (RVal (VPArr 3 (Some [1; 2; 3]%Z)), []).
+Proof. exact unslice_pointer_to_array_refuted. Qed.
+Print Assumptions C10_unslice_pointer_to_array_refuted.
+
+Theorem C10_unslice_nil_pointer_to_array_refuted :
+  exists en s, env_ok en /\ typeof s = Some TPArr /\
+    eval en (rw_lhs (rw_unslice s)) = Some (RPanic, []) /\ eval en (rw_rhs (rw_unslice s)) = Some (RVal (VPArr 3 None), []).
+Proof. exact unslice_nil_pointer_to_array_refuted. Qed.
+Print Assumptions C10_unslice_nil_pointer_to_array_refuted.
+
+(* valSwap, positive side.  Full statement (false, see C10_val_swap_rule_refuted / _index_dependence_refuted):
+     forall x y, val_swap_rewrite .. = Some s' -> exec (tmp := y; y = x; x = tmp) = exec (y, x = x, y).
+   Guard: x and y are two distinct plain variables of one type and the temporary is neither.  Then both forms succeed
+   without events and agree on every variable except the temporary, with x and y exchanged. *)
+Theorem C10_val_swap_vars_preserves_partial : forall en x y t tmp h,
+  env_ok en -> x <> y -> tmp <> x -> tmp <> y ->
+  exists en1 en2,
+    exec en (val_swap_lhs tmp t (LVar x t) (LVar y t)) h = Some (RVal en1, h) /\
+    exec en (val_swap_rhs (LVar x t) (LVar y t)) h = Some (RVal en2, h) /\
+    (forall z u, (z <> tmp \/ u <> t) -> vars en1 z u = vars en2 z u) /\
+    vars en2 x t = vars en y t /\ vars en2 y t = vars en x t.
+Proof. exact val_swap_vars_preserves_partial. Qed.
+Print Assumptions C10_val_swap_vars_preserves_partial.
+
+Example C10_val_swap_guard_satisfiable :
+  "a" <> "b" /\ "tmp" <> "a" /\ "tmp" <> "b" /\
+  val_swap_rewrite (SDefine "tmp" TInt (EIdent "b" TInt)) (SAssign (LVar "b" TInt) (EIdent "a" TInt)) (SAssign (LVar "a" TInt) (EIdent "tmp" TInt))
+    = Some (SAssign2 (LVar "b" TInt) (LVar "a" TInt) (EIdent "a" TInt) (EIdent "b" TInt)).
+Proof. repeat split; try discriminate. Qed.
